@@ -22,6 +22,7 @@ EXPLANATION = (
     " (R13) tight productions: an emitter writes white space between two fields only where a parser step between them (or the neighbouring field's own parser) can consume white space; and the emitter of a node all of whose parsers are white-space free (a token: number, complex literal, grammar identifier) writes no blank, neither literally nor through a helper emitter called with a constant argument."
     " (R15) distinct variants of a node enum are never rendered by identical code (one or-pattern arm, or arm bodies equal up to binder names): identical rendering makes them indistinguishable in the formatted text."
     " (R16) reachable spelling: for every variant->literal table of the formatter over a field-less node enum (the 8 formula-operator classes, the op-assign operators, both range-operator positions) and every prefix/postfix/circumfix variant of the formula operand type, the text the enclosing node emitter writes (literal plus the separators of the wrapper emitters, operands as one identifier-like sentinel) is evaluated on the combinator source of the parser functions that build the node - ordered `alt`, `cut`, `is_not`, white-space leaves, the whole precedence descent - and must be consumed completely, without hard failure, building exactly the given variants (a listed tag shadowed by an earlier alternative or by an operator of a tighter level, a token glued to an identifier operand, a missing blank are reported); this decides a structural fact about (emitter text, grammar) for sentinel operands, not the behaviour of the parser on real programs."
+    " (R17) sibling renderers: a node variant with a payload of several components that is rendered with the same literal template by a mech_core to_string() (to which the formatter's text path delegates for nested elements) and by a formatter emitter fills every hole with the same component, identified by position in the variant's pattern."
 )
 OP_ENUMS = ["AddSubOp", "MulDivOp", "PowerOp", "VecOp", "ComparisonOp", "LogicOp", "TableOp", "SetOp", "OpAssignOp", "RangeOp"]
 
@@ -338,6 +339,8 @@ def _run(F, rep, tier):
     # ---- R16: the spelling written for a token variant is reachable in the grammar (ordered choice, precedence descent, cut)
     from rules import c08_reach
     c08_reach.run(F, rep, fm, reach, enums, structs)
+    from rules import c08_siblings
+    c08_siblings.run(F, rep)   # R17: the two renderers of a node variant fill the holes of one template with the same components
     # ---- R10: based-literal prefixes: the emitter of a RealNumber variant writes a prefix its parser leaf accepts
     rep.rule("C08-R10", "based literals: the prefix the formatter writes for RealNumber::{Hexadecimal,Octal,Binary,Decimal} is a tag the parser leaf building that variant accepts")
     from lib.emit import parse_format, split_format
